@@ -213,12 +213,12 @@ func dedupeStates(w *accWalker, ss []astate) []astate {
 	if len(out) > w.maxStates {
 		w.maxStates = len(out)
 	}
-	if len(out) > 2048 {
+	if len(out) > 16384 {
 		if !w.truncated {
-			w.notes = append(w.notes, fmt.Sprintf("more than 2048 path states in %s: the table is incomplete", w.entry))
+			w.notes = append(w.notes, fmt.Sprintf("more than 16384 path states in %s: the table is incomplete", w.entry))
 		}
 		w.truncated = true
-		out = out[:2048]
+		out = out[:16384]
 	}
 	return out
 }
@@ -1642,7 +1642,7 @@ func writeAccess(w *accWalker, outDir string, nEntries int) error {
 	fmt.Fprintf(&sb, "Definition gen_access_count : nat := %d.\n", len(recs))
 	fmt.Fprintf(&sb, "Definition gen_write_count : nat := %d.\n", writes)
 	fmt.Fprintf(&sb, "Definition gen_entry_count : nat := %d.\n", nEntries)
-	fmt.Fprintf(&sb, "Definition gen_truncated : bool := %v. (* at most %d path states at a statement; the limit is 2048 *)\n", w.truncated, w.maxStates)
+	fmt.Fprintf(&sb, "Definition gen_truncated : bool := %v. (* at most %d path states at a statement; the limit is 16384 *)\n", w.truncated, w.maxStates)
 	fmt.Fprintf(&sb, "Definition gen_note_count : nat := %d.\n", len(w.notes))
 	for _, n := range w.notes {
 		fmt.Fprintf(&sb, "(* note: %s *)\n", strings.ReplaceAll(n, "*)", "* )"))
